@@ -22,7 +22,26 @@ import (
 func init() { register("c16", c16) }
 
 // follower is the follow-mode restore target of one scenario (convergence half, engine E1).
+// c16Client is the follower's replica client: after its next level-0 listing has been taken (armed by FPOLLR) it
+// lets the primary compact and prune level 0, so that the listed files are gone when the follower opens them.
+type c16Client struct {
+	litestream.ReplicaClient
+	afterList func()
+}
+
+func (c *c16Client) LTXFiles(ctx context.Context, level int, seek ltx.TXID, useMetadata bool) (ltx.FileIterator, error) {
+	itr, err := c.ReplicaClient.LTXFiles(ctx, level, seek, useMetadata)
+	if err == nil && level == 0 && c.afterList != nil {
+		// the file client's iterator is a snapshot of the directory taken by the call above
+		fn := c.afterList
+		c.afterList = nil
+		fn()
+	}
+	return itr, err
+}
+
 type follower struct {
+	client   *c16Client
 	path     string
 	f        *os.File
 	rep      *litestream.Replica
@@ -109,7 +128,8 @@ func c16Ext(s *scn.Scn, name, arg string) (scn.Outcome, bool) {
 			s.User = fo
 		}
 		fo.path = filepath.Join(s.Dir, "follower")
-		fo.rep = litestream.NewReplicaWithClient(nil, file.NewReplicaClient(s.ReplicaDir))
+		fo.client = &c16Client{ReplicaClient: file.NewReplicaClient(s.ReplicaDir)}
+		fo.rep = litestream.NewReplicaWithClient(nil, fo.client)
 		opt := litestream.NewRestoreOptions()
 		opt.OutputPath = fo.path
 		opt.Follow = true
@@ -147,6 +167,30 @@ func c16Ext(s *scn.Scn, name, arg string) (scn.Outcome, bool) {
 		fo.last, _ = litestream.ReadTXIDFile(fo.path)
 		fo.check(s, "after initial restore")
 		return scn.Outcome{}, true
+	case "FPOLLR":
+		// A poll racing the primary's level-0 retention: right after the follower has listed level 0, the primary
+		// compacts level 0 into level 1 and prunes every level-0 file older than the threshold (all of them, aged),
+		// so the files the follower is about to open are gone. One fixed interleaving inside the operation.
+		if fo == nil || fo.f == nil || fo.client == nil || !s.LSOpen {
+			return scn.Outcome{Illegal: true}, true
+		}
+		fo.client.afterList = func() {
+			ctx := context.Background()
+			if s.Store != nil {
+				if lvl, err := s.Levels().Level(1); err == nil {
+					_, _ = s.Store.CompactDB(ctx, s.DB, lvl)
+				}
+			} else {
+				_, _ = s.DB.Compact(ctx, 1)
+			}
+			old := time.Now().Add(-2 * time.Hour)
+			for _, f := range scn.ListLevel(s.ReplicaDir, 0) {
+				os.Chtimes(s.ReplicaFilePath(f), old, old)
+			}
+			s.DB.L0Retention = time.Hour
+			_ = s.DB.EnforceL0RetentionByTime(ctx)
+		}
+		fallthrough
 	case "FPOLL":
 		if fo == nil || fo.f == nil {
 			return scn.Outcome{Illegal: true}, true
@@ -442,6 +486,9 @@ func c16(args []string) int {
 			// end shape: L0[5-6] L1[4-4] L2[1-3] L9[1-6], follower at 1
 			strings.Fields("W1 SW FOPEN W1 SW W1 SW CMP:1 CMP:2 W3 SW CMP:1 SNAP W1 SW W1 SW FSNAP RET9A:1 RETL0A:5"),
 		}},
+		// a poll whose listed level-0 files are compacted and pruned by the primary before the follower opens them
+		{Name: "seeded/keep/poll-races-retention", Cfg: keep, Alphabet: strings.Fields("FPOLLR FPOLL W3 SW"), Depth: d(2, 3), Seeds: [][]string{
+			strings.Fields("W1 SW FOPEN W3 SW W3 SW W3 SW"), strings.Fields("W3 SW W1 SW FOPEN U SW W3 SW W1 SW")}},
 		{Name: "merged/prune", Cfg: prune, Alphabet: append(append([]string{}, a...), "W3", "D", "VAC", "S", "RET9A:1"), Depth: d(7, 10), Merge: true, MaxRuns: int64(d(1500, 80000)), Seeds: seeds[1:2]},
 	}
 	budget := ev.Budget(110*time.Second, 40*time.Minute)
